@@ -3,6 +3,7 @@
 HARNESSES = {
     'c01': dict(flavour='asan', srcs=['c01.cpp']),
     'engine': dict(flavour='asan', srcs=['engine.cpp']),
+    'c05k': dict(flavour='asan', srcs=['c05k.cpp']),
     'c11': dict(flavour='asan', srcs=['c11.cpp']),
     'c13': dict(flavour='asan', srcs=['c13.cpp']),
     'c17': dict(flavour='asan', srcs=['c17.cpp']),
@@ -60,7 +61,10 @@ PROPS = {
              'reached synchronously or after ASYNC_PAUSED episodes, tick spacings 0..60 s. Oracle: EngineModel '
              '(no action of a ruleset before t+d, restart allowed from t+d, d = stopping action\'s delay if it gives '
              'one). Non-trivial = a tick exactly at t+d, or a STOP after >=1 ASYNC whose own delay differs from the '
-             "ruleset's; distinct by scenario hash.",
+             "ruleset's; distinct by scenario hash. Second campaign (harness c05k): the five real kill plugins with "
+             'their own post_action_delay behind slow scripted prekill hooks, detector firing on every tick, irregular '
+             'tick spacing: after a STOP at virtual time t no chain starts before t+d and one starts at the first tick '
+             '>= t+d; non-trivial there = a STOP whose plugin delay differs from the ruleset delay.',
         assumptions=['scripted plugins in the real registry; virtual CLOCK_MONOTONIC'],
     ),
     'C06': dict(
@@ -554,5 +558,18 @@ def run_C14(r, spec, tier):
     cov['flavours'] = dict(tsan=agg['evaluations'], asan=agg2['evaluations'])
     for k, v in agg2['labels'].items():
         cov['labels'][k] = cov['labels'].get(k, 0) + v
+    cov['replayed'] = nrep
+    return cov
+
+
+def run_C05(r, spec, tier):
+    nrep = r.replay_tier(spec['harness'], extra_env=spec.get('env'))
+    agg = r.campaign(spec['harness'], 'main', tier['shards'], tier['n'], tier['size'], extra_env=spec.get('env'))
+    agg2 = r.campaign('c05k', 'kill', tier['shards'], max(100, tier['n'] // 8), tier['size'])
+    cov = cov_from(agg)
+    cov['evaluations'] += agg2['evaluations']
+    cov['distinct_nontrivial'] = len(agg['hashes'] | agg2['hashes'])
+    cov['sub_campaigns'] = dict(scripted_plugins=agg['evaluations'], real_kill_plugins=agg2['evaluations'],
+                                real_kill_labels=agg2['labels'])
     cov['replayed'] = nrep
     return cov
